@@ -100,3 +100,59 @@ Qed.
 Lemma subst_fence_open : forall c conts b l, In l (block_text c conts b) -> closes (S (max_bt 2 (block_text c conts b))) l = false.
 Proof. intros. apply fence_not_closed_by_body. assumption. Qed.
 End Same.
+
+(* ---------- idempotence at the level of the document grammar ---------- *)
+Lemma commands_subst : forall d bs, length bs = commands d -> commands (subst d bs) = commands d.
+Proof.
+  induction d as [|e d IH]; intros bs Hl; [reflexivity|].
+  destruct e as [lines|l|k t| |n lang body tail|n cfg cm cmd tail]; cbn [subst commands] in *; try (apply IH; exact Hl).
+  destruct cmd as [[[c conts] old]|].
+  - destruct bs as [|b bs']; [cbn in Hl; lia|]. cbn [commands]. f_equal. apply IH. cbn in Hl. lia.
+  - cbn [commands]. apply IH. exact Hl.
+Qed.
+
+Lemma option_map_trim_idem : forall (cfg : option text), option_map trim_start (option_map trim_start cfg) = option_map trim_start cfg.
+Proof. intros [c|]; cbn [option_map]; [rewrite trim_start_idem|]; reflexivity. Qed.
+
+Lemma subst_idem : forall d bs, length bs = commands d -> subst (subst d bs) bs = subst d bs.
+Proof.
+  induction d as [|e d IH]; intros bs Hl; [reflexivity|].
+  destruct e as [lines|l|k t| |n lang body tail|n cfg cm cmd tail]; cbn [subst commands] in *; try (f_equal; apply IH; exact Hl).
+  destruct cmd as [[[c conts] old]|].
+  - destruct bs as [|b bs']; [cbn in Hl; lia|]. cbn [subst]. rewrite option_map_trim_idem. f_equal. apply IH. cbn in Hl. lia.
+  - cbn [subst]. rewrite option_map_trim_idem. f_equal. apply IH. exact Hl.
+Qed.
+
+Lemma bodies_for_subst : forall d bs, length bs = commands d -> bodies_for (subst d bs) bs = bodies_for d bs.
+Proof.
+  induction d as [|e d IH]; intros bs Hl; [reflexivity|].
+  destruct e as [lines|l|k t| |n lang body tail|n cfg cm cmd tail]; cbn [subst bodies_for commands] in *; try (apply IH; exact Hl).
+  destruct cmd as [[[c conts] old]|].
+  - destruct bs as [|b bs']; [cbn in Hl; lia|]. cbn [bodies_for]. f_equal. apply IH. cbn in Hl. lia.
+  - cbn [bodies_for]. apply IH. exact Hl.
+Qed.
+
+Section Idem.
+Variable pe_ok : text -> bool.
+Variable front_ok : list text -> bool.
+Variable cfg_ok : text -> bool.
+
+(* updating the updated document with the same bodies changes nothing *)
+Theorem update_idempotent : forall d bs, wf_md pe_ok front_ok cfg_ok d = true -> length bs = commands d ->
+  wf_md pe_ok front_ok cfg_ok (subst d bs) = true -> bodies_for d bs <> [] ->
+  update_md (update_md (render_md d) (bodies_for d bs)) (bodies_for d bs) = update_md (render_md d) (bodies_for d bs).
+Proof.
+  intros d bs Hwf Hl Hwf' Hne.
+  assert (E1: update_md (render_md d) (bodies_for d bs) = render_md (subst d bs)).
+  { unfold update_md. destruct (bodies_for d bs) as [|b0 br] eqn:Eb; [congruence|]. rewrite <- Eb.
+    unfold md_tokens, wf_md in *. change (Top false) with (Top (negb true)).
+    rewrite (tokens_render pe_ok front_ok cfg_ok d true 0%nat Hwf). apply update_render. exact Hl. }
+  rewrite E1.
+  unfold update_md. destruct (bodies_for d bs) as [|b0 br] eqn:Eb; [congruence|]. rewrite <- Eb.
+  unfold md_tokens, wf_md in *. change (Top false) with (Top (negb true)).
+  rewrite (tokens_render pe_ok front_ok cfg_ok (subst d bs) true 0%nat Hwf').
+  rewrite <- (bodies_for_subst d bs Hl).
+  rewrite (update_render (subst d bs) 0%nat bs ltac:(rewrite commands_subst; assumption)).
+  rewrite (subst_idem d bs Hl). reflexivity.
+Qed.
+End Idem.
